@@ -304,6 +304,18 @@ pub fn api_use_part(deadline: &Deadline) -> Stats {
             if let Ok(tc) = load(&text, &p.sigs, DEFAULT_BUDGET) {
                 let ans: Answer = outs.iter().map(|n| (n.clone(), value_of(n))).collect();
                 let clean = run_io_driver(&tc, &ans, usize::MAX, std::io::ErrorKind::Other, 24);
+                // the deprecated name of try_iter is the same function
+                for f in [usize::MAX, fault_at] {
+                    let a = crate::subject::run_io_driver_via(&tc, &ans, f, std::io::ErrorKind::Other, 24, false);
+                    let b = crate::subject::run_io_driver_via(&tc, &ans, f, std::io::ErrorKind::Other, 24, true);
+                    st.evals += 1;
+                    st.witness("run_iter_is_try_iter");
+                    if a != b {
+                        let pos = a.iter().zip(b.iter()).position(|(x, y)| x != y).unwrap_or(a.len().min(b.len()));
+                        st.violation("run_iter (deprecated name) behaves differently from try_iter", u << 8 | 0xfe, format!("program '{}':\n{text}line {pos}: run_iter gives {:?}, try_iter gives {:?}", p.name, b.get(pos), a.get(pos)), || json!({"kind": "none", "text": text, "expected": a, "observed": b}));
+                        return;
+                    }
+                }
                 for kind in [std::io::ErrorKind::Interrupted, std::io::ErrorKind::WouldBlock, std::io::ErrorKind::TimedOut, std::io::ErrorKind::BrokenPipe, std::io::ErrorKind::UnexpectedEof, std::io::ErrorKind::Other] {
                     let got = run_io_driver(&tc, &ans, fault_at, kind, 24);
                     st.evals += 1;
